@@ -370,7 +370,7 @@ def gen_wf(rng):
         return rng.choice([("x",), ("z",), (" ",), ("<",), (">",), ("=",), ("!", None), ("c", None), ("X",), ("bad", "y")])
     toks = []
     if rng.chance(2, 3):
-        toks.append(("!", rng.choice([None] + list(range(1, 18)) + SIZESET[12:])))
+        toks.append(("!", rng.choice([None] + list(range(1, 18)) * 3 + SIZESET[12:])))
     for _ in range(1 + rng.below(3)):
         if rng.chance(1, 3):
             toks.append(("X",))
@@ -750,9 +750,9 @@ class State:
         self.err_seen = set()
 
     # -------------------------------------------------- helpers
-    def both(self, lines, resilient=False):
+    def both(self, lines, resilient=False, per_case_timeout=30):
         if resilient:
-            impl = vlib.run_lines_resilient(self.gvh, [], lines, per_case_timeout=30, mem_kb=3 * 1024 * 1024)
+            impl = vlib.run_lines_resilient(self.gvh, [], lines, per_case_timeout=per_case_timeout, mem_kb=3 * 1024 * 1024)
             rc1 = 0
         else:
             rc1, impl, e1 = vlib.run_lines(self.gvh, [], lines, timeout=1800)
@@ -774,8 +774,12 @@ class State:
         return False
 
     def s_violation(self, summary, replay):
+        """at most 3 replays per category of failure (category = the summary up to the first ':' or '('), 24 in all"""
         self.s_fail += 1
-        if self.s_fail <= 5:
+        cat = re.sub(r"\d+", "N", summary[:150]) if "well-formedness" in summary else re.split(r"[:(]", summary, 1)[0][:60]
+        self.s_cat = getattr(self, "s_cat", {})
+        self.s_cat[cat] = self.s_cat.get(cat, 0) + 1
+        if self.s_cat[cat] <= 3 and len(self.ck.violations) < 24:
             self.ck.violation(summary, replay)
 
     def im_difference(self, line, impl, model):
@@ -824,7 +828,9 @@ class State:
             if bad:
                 self.s_violation("corpus witness of a repaired defect fails again: %s (field %s: expected %s, got %s)" % (a, bad[0], bad[1], bad[2]),
                                  {"kind": "Go!=S", "engine": "pack", "line": lines[i], "expected": exp, "impl": impl[i], "model": model[i]})
-            # Go vs IM on the same line
+            # Go vs IM on the same line (not for what the model does not cover, e.g. float printing)
+            if "unmodelled" in model[i]:
+                continue
             same = True
             for k in ("P", "U", "S", "L", "V", "F"):
                 if k in gi or k in mo:
@@ -990,7 +996,7 @@ class State:
                 lines.append("w%dp R %s %s" % (i, hexs(fmtb), vals_tok(vals))); meta.append(("P", toks, lay, fmtb))
             lines.append("w%ds S %s" % (i, hexs(fmtb))); meta.append(("S", toks, lay, fmtb))
             lines.append("w%du U %s %s 1" % (i, hexs(fmtb), "00" * 96)); meta.append(("U", toks, lay, fmtb))
-        impl, model = self.both(lines, resilient=True)
+        impl, model = self.both(lines, resilient=True, per_case_timeout=8)
         for i, (op, toks, lay, fmtb) in enumerate(meta):
             if i >= len(impl) or i >= len(model):
                 break
@@ -1164,7 +1170,7 @@ class State:
         for sp in sspecs:
             specs += [sp, sp]
         for k in range(n // 3):
-            sp = rng.choice(specs)
+            sp = rng.choice(sspecs) if rng.below(5) == 0 else rng.choice(specs)
             conv = sp[-1]
             if conv in "diuxXo":
                 v = rng.choice(ints) if rng.below(6) else rng.choice([0, 0, 1, -1, 7, 8, 255])
